@@ -10,7 +10,10 @@ mod tree;
 use std::io::{BufRead, BufReader, BufWriter, Write};
 
 fn main() {
-    std::panic::set_hook(Box::new(|_| {}));
+    // panics of the code under test are data (recorded per call); HARNESS_PANICS=1 shows them for debugging
+    if std::env::var_os("HARNESS_PANICS").is_none() {
+        std::panic::set_hook(Box::new(|_| {}));
+    }
     let args: Vec<String> = std::env::args().collect();
     match args.get(1).map(|s| s.as_str()) {
         Some("exec") => {
